@@ -40,6 +40,12 @@ def call_decompose(case, y=None, cols=None, w="same", **over):
             import polars as pl
 
             X = pl.DataFrame({nm: [float(v) for v in c] for nm, c in zip(names, cols)})
+        elif over.get("xcontainer", case.get("xcontainer")) == "rows_mixed":
+            # plain Python containers: a list (or tuple) of rows in which integral numbers are ints, the others floats
+            py = lambda v: int(v) if float(v).is_integer() else float(v)
+            X = [py(v) for v in cols[0]] if len(cols) == 1 and not over.get("force_2d") else [[py(c[i]) for c in cols] for i in range(len(cols[0]))]
+            if len(y) % 2 == 1 and isinstance(X[0], list):
+                X = tuple(tuple(r) for r in X)
         else:
             X = np.array(cols[0], dtype=float) if len(cols) == 1 and not over.get("force_2d") else np.array(cols, dtype=float).T
         df = decompose(np.array(y, dtype=float), X, None if w is None else np.array(w, dtype=float), scoring_function=sf, **kw)
